@@ -491,15 +491,18 @@ def explore_cfg(col, cfg):
 def configs(tier):
     out = []
     if tier == "quick":
-        out.append(dict(n=2, faults=1, excs=list(EXCS), stdout_faults=True))
+        out.append(dict(n=2, faults=1, excs=list(EXCS)))
+        out.append(dict(n=2, faults=1, excs=[], stdout_faults=True))       # only stdout / validation faults
         out.append(dict(n="I2", faults=1, excs=list(EXCS)))
         out.append(dict(n=3, faults=0, excs=[], rich=True))
         out.append(dict(n=1, faults=1, excs=list(EXCS), rich=True, stdout_faults=True))
-        out.append(dict(n=2, faults=1, excs=["RenderError", "KeyboardInterrupt"], tty=False, stdout_faults=True))
+        out.append(dict(n=2, faults=1, excs=["RenderError", "KeyboardInterrupt"], tty=False))
+        out.append(dict(n="I2", faults=1, excs=[], tty=False, stdout_faults=True))
     else:
         for n in (2, 3, "I2", "I3"):
             out.append(dict(n=n, faults=2, excs=list(EXCS_MORE), rich=True))
-            out.append(dict(n=n, faults=1, excs=list(EXCS_MORE), rich=True, tty=False, stdout_faults=True))
+            out.append(dict(n=n, faults=1, excs=["RenderError", "KeyboardInterrupt"], rich=True, tty=n in (3, "I2"),
+                            stdout_faults=True))
         out.append(dict(n=2, faults=3, excs=list(EXCS)))
         out.append(dict(n="I2", faults=3, excs=list(EXCS)))
         out.append(dict(n=2, faults=2, excs=["RenderError", "KeyboardInterrupt"], stdout_faults=True))
